@@ -43,7 +43,11 @@ pub fn variant_module(name: &str, v: &Variant) -> String {
             } else { writeln!(s, "      pub struct P;").unwrap(); }
             for it in &items { writeln!(s, "      {}", it).unwrap(); }
             writeln!(s, "   }}").unwrap();
-            let pty = if generic { "P<i32>" } else { "P" };
+            let tparam: String = v.flags.iter().find_map(|f| f.strip_prefix("T=")).unwrap_or("i32").to_string();
+            let tparam = if tparam == "Sym" { "vfn::Sym".to_string() } else { tparam };
+            let perm: usize = v.flags.iter().find_map(|f| f.strip_prefix("perm=")).and_then(|x| x.parse().ok()).unwrap_or(0);
+            let pty_owned = format!("P<{}>", tparam);
+            let pty: &str = if generic { &pty_owned } else { "P" };
             let lazy = v.flags.iter().any(|f| f == "init-tls");
             if lazy {
                 writeln!(s, "   pub struct I {{ inputs: Vec<Vec<Vec<i32>>>, p: Option<{}> }}", pty).unwrap();
@@ -59,7 +63,8 @@ pub fn variant_module(name: &str, v: &Variant) -> String {
                 writeln!(s, "      fn push(&mut self, rel: usize, t: &[i32]) {{ match rel {{").unwrap();
                 for (i, r) in p.rels.iter().enumerate() {
                     if r.ds.is_some() { writeln!(s, "         {} => panic!(\"no input vector for a BYODS relation\"),", i).unwrap(); continue; }
-                    writeln!(s, "         {} => {{ self.0.{}.push({}); }}", i, r.name, tuple_expr(r.arity, r.lat.is_some(), par)).unwrap();
+                    let te = if generic && tparam != "i32" { tuple_expr(r.arity, false, par).replace("t[", &format!("vfn::conv::<{}>({}, t[", tparam, perm)).replace("]", "])") } else { tuple_expr(r.arity, r.lat.is_some(), par) };
+                    writeln!(s, "         {} => {{ self.0.{}.push({}); }}", i, r.name, te).unwrap();
                 }
                 writeln!(s, "         _ => unreachable!() }} }}").unwrap();
                 writeln!(s, "      fn run(&mut self) {{ self.0.run(); }}").unwrap();
@@ -70,7 +75,8 @@ pub fn variant_module(name: &str, v: &Variant) -> String {
             writeln!(s, "      fn dump(&self, rel: usize) -> Vec<Vec<i32>> {{ match rel {{").unwrap();
             for (i, r) in p.rels.iter().enumerate() {
                 if r.ds.is_some() { writeln!(s, "         {} => vec![],", i).unwrap(); continue; }
-                let d = dump_expr(&r.name, r.arity, r.lat.is_some(), par);
+                let mut d = dump_expr(&r.name, r.arity, r.lat.is_some(), par);
+                if generic && tparam != "i32" { for c in 0..r.arity { d = d.replace(&format!("t.{}", c), &format!("vfn::unconv({}, &t.{})", perm, c)); } }
                 writeln!(s, "         {} => {},", i, if lazy { d.replace("self.0.", "self.get().") } else { d }).unwrap();
             }
             writeln!(s, "         _ => unreachable!() }} }}").unwrap();
